@@ -61,7 +61,8 @@ extern MPT_STRUCT(buffer) *mpt_array_reserve(MPT_STRUCT(array) *arr, size_t len,
 			}
 			/* copy compatible content */
 			if ((old == traits)
-			 && !(flags & MPT_ENUM(BufferNoCopy))) {
+			 && !(flags & MPT_ENUM(BufferNoCopy))
+			 && !(old && old->fini && !old->init)) {
 				if (used > len) {
 					used = len;
 				}
